@@ -314,13 +314,17 @@ class TextFileProvider(FileProvider):
         if self._exception:
             raise self._exception
         try:
-            if self._content:
+            if self._content is not None:
+                # loaded already (maybe nothing is left after filtering)
                 yield self._content
             else:
                 args = self.create_args()
                 if args:
                     with streams.connect(*args, env=SAFE_ENV) as s:
                         yield s
+                elif not isinstance(self.ctx, HostContext) and self._filters:
+                    # Post-filtering when processing data, see load()
+                    yield self.content
                 else:
                     with safe_open(
                         self.path, "r", encoding=encoding, errors="surrogateescape"
